@@ -220,6 +220,7 @@ def verdict(prop, cfg, tier, seed, pr, results, runner, drv, t0, vp):
     reported = set()
     known_hits = set()
     # 5a. direct oracle failures: minimise and report
+    hanging = any("non-termination" in v for _, v in viols)
     for d, v in viols:
         k = vp.match_known(prop, v, known)
         if k:
@@ -230,7 +231,7 @@ def verdict(prop, cfg, tier, seed, pr, results, runner, drv, t0, vp):
             continue
         reported.add(hid)
         hist = history_from_ops(os.path.join(d, "ops"), hid) or []
-        if "non-termination" in v:
+        if hanging:
             small, again = hist, [v]        # every re-run of a hanging history costs a watchdog period: not minimised
         else:
             small = vp.ddmin(hist, runner, prop) if hist else hist
